@@ -1075,6 +1075,10 @@ pub fn run(args: &Args, rep: &mut Report) {
         let cseed = rng.next_u64();
         let leg = match i % 10 {
             0..=5 => "sndbuf",
+            // under an interpreter (Miri) the crypto sender's `assert!(waker.will_wake(..))` depends on vtable
+            // addresses of the harness's noop waker, which the interpreter does not keep unique: the leg is
+            // driven natively only
+            6 | 7 if args.flag("interp") => "sndbuf",
             6 | 7 => "crypto",
             _ => "stream",
         };
